@@ -124,7 +124,7 @@ theorem questCount_zero_root (pre : List Frame) (hno : ∀ f ∈ pre, f.isOpn = 
 
 theorem inv_init : Inv {} {} [] { pre := [], base := none, top := none } [] := by
   constructor
-  · exact Levels.root _ _ ⟨rfl, rfl⟩ ⟨FramesOk.nil, by simp, by simp⟩ rfl
+  · exact Levels.root _ _ ⟨rfl, rfl⟩ ⟨FramesOk.nil, by simp, by simp, by simp⟩ rfl
   · rfl
   · rfl
   · rfl
@@ -135,10 +135,10 @@ theorem inv_init : Inv {} {} [] { pre := [], base := none, top := none } [] := b
 
 /-- **print ∘ parse = id on tokens**: for a token sequence with the shape of a C expression, the
     tokens printed from the tree the parser builds are the tokens that were parsed. -/
-theorem printToks_parse (ts : List Tok) (e : Expr) (hshape : CShape ts = true) (hlex : Lexed ts)
-    (hparse : parse ts = .ok e) : printToks e = ts := by
+theorem printToks_parse_canon (ts : List Tok) (e : Expr) (hshape : CShape ts = true) (hlex : Lexed ts)
+    (hparse : parse ts = .ok e) : printToks e = ts ∧ canonB e = true := by
   cases ts with
-  | nil => simp [parse] at hparse; subst hparse; rfl
+  | nil => simp [parse] at hparse; subst hparse; exact ⟨rfl, rfl⟩
   | cons t ts =>
     unfold CShape at hshape
     unfold parse at hparse
@@ -166,8 +166,15 @@ theorem printToks_parse (ts : List Tok) (e : Expr) (hshape : CShape ts = true) (
           obtain ⟨_, hmo, _⟩ := hmd
           have hred : ∀ f ∈ cur.pre, f.reducible = true :=
             questCount_zero_root cur.pre hgood.noOpn (by rw [← hfs, ← hinv.pending, hpend])
-          obtain ⟨v, hv1, _, _, _, hv3, _⟩ := reduce_all σf.prev cur.pre hred (by rw [← hfs]; exact hgood.frames)
-            cur.top (by rw [← hfs]; exact hmo) hgood.topOk
+          have hcan : ∀ e, cur.top = some e → canonB e = true ∧ ∀ f, cur.pre.head? = some f → f.accepts (rootPrec e) = true := by
+            intro e he
+            obtain ⟨c1, c2⟩ := top_accepted hgood e he
+            refine ⟨c1, fun f hf => c2 f (by rw [hfs]; exact hf) ?_⟩
+            rcases hmo with ⟨_, h⟩ | ⟨h, _⟩
+            · exact h f (by rw [hfs]; exact hf)
+            · rw [h] at he; simp at he
+          obtain ⟨v, hv1, _, _, _, hvc, hv3, _⟩ := reduce_all σf.prev cur.pre hred (by rw [← hfs]; exact hgood.frames)
+            cur.top (by rw [← hfs]; exact hmo) hgood.topOk hcan
           have hfin : finish σf = .ok v := by
             unfold finish
             rw [hrep.1, hrep.2, hfs]
@@ -177,10 +184,20 @@ theorem printToks_parse (ts : List Tok) (e : Expr) (hshape : CShape ts = true) (
           rw [hfin] at hparse
           simp only [Except.ok.injEq] at hparse
           subst hparse
+          refine ⟨?_, hvc⟩
           rw [hv1]
           have := hinv.toks
           simp only [List.nil_append, allToks, List.reverse_nil, List.flatMap_nil, Lvl.toks] at this
           rw [this, hfs]
+
+theorem printToks_parse (ts : List Tok) (e : Expr) (hshape : CShape ts = true) (hlex : Lexed ts)
+    (hparse : parse ts = .ok e) : printToks e = ts :=
+  (printToks_parse_canon ts e hshape hlex hparse).1
+
+/-- **the parser's image**: the tree built from a well-shaped sequence is precedence-correct -/
+theorem parse_canon (ts : List Tok) (e : Expr) (hshape : CShape ts = true) (hlex : Lexed ts)
+    (hparse : parse ts = .ok e) : canonB e = true :=
+  (printToks_parse_canon ts e hshape hlex hparse).2
 
 /-- hence the printed tokens parse back to the same tree -/
 theorem parse_printToks (ts : List Tok) (e : Expr) (hshape : CShape ts = true) (hlex : Lexed ts)
